@@ -453,6 +453,7 @@ def run(tier, replay=None):
     fails = {}                                        # signature -> (size, detail)
     drift = {}
     routes_seen, forms_seen, kinds_seen = set(), set(), set()
+    events_seen, owners_seen = set(), set()
     fams = FAMILIES[tier]
     if os.environ.get("C08_FAMILIES"):               # development only: restrict the families (vacuity floors then fail)
         fams = os.environ["C08_FAMILIES"].split(",")
@@ -502,6 +503,7 @@ def run(tier, replay=None):
                 for o in g["outs"]:
                     for f in o["fire"]:
                         kinds_seen.add(f["kind"])
+                        owners_seen.add(owner_of(f))
             else:
                 n_unlimited += 1
             if nontrivial(g):
@@ -511,6 +513,9 @@ def run(tier, replay=None):
                            "expected": [list(x) for x in outcome_tuple(exact[0])]}, cap=6)
             ok = "steps" in res and len(res["steps"]) >= 3 and observed_tuple(res) in allowed
             if ok:
+                for st in res["steps"][:3]:
+                    for line in st["out"]:
+                        events_seen.add(tagkind(line))
                 if sc["S"] < 0 and exact and observed_tuple(res) != outcome_tuple(exact[0]):
                     d = "family=%s routes=%s forms=%s L=%s R=%s" % (fam, [a["route"] for a in sc["acts"]],
                                                                      [a["form"] for a in sc["acts"]], sc["L"], sc["R"])
@@ -546,13 +551,22 @@ def run(tier, replay=None):
     ck.cov.update(states=states, transitions=trans, traces_validated_against_impl=n_sc, evaluations=n_sc * 3,
                   distinct_nontrivial=n_nontriv, scenarios_with_limit_hit=n_fired, scenarios_under_all_limits=n_unlimited,
                   allowed_outcomes=n_out, routes=len(routes_seen), loop_forms=len(forms_seen - {"none"}),
-                  limit_kinds=sorted(kinds_seen), failing_signatures=len(fails),
+                  limit_kinds=sorted(kinds_seen), chain_owners=sorted(owners_seen), print_kinds_observed=len(events_seen),
+                  failing_signatures=len(fails),
                   rule="one replay per TLC-enumerated scenario x limit triple (three host steps each: eval, run_jobs, eval); "
                        "non-trivial = in the model's exact outcome a limit fires while a try/catch/finally wrapper is open on the "
                        "dead chain or the chain crosses a native re-entry / job / continuation route")
     floor = 400 if tier == "quick" else 4000
     if n_nontriv < floor:
         raise vlib.ToolError(f"vacuity guard: only {n_nontriv} non-trivial scenarios (< {floor})")
+    if not os.environ.get("C08_FAMILIES"):
+        want_events = set(EVK.values())
+        if events_seen != want_events:
+            raise vlib.ToolError(f"vacuity guard: print kinds never observed in a conforming run: {sorted(want_events - events_seen)}")
+        if owners_seen != {"script", "job", "continuation", "epilogue"}:
+            raise vlib.ToolError(f"vacuity guard: limit never fired in a chain owned by {sorted({'script', 'job', 'continuation', 'epilogue'} - owners_seen)}")
+        if len(kinds_seen) != 3:
+            raise vlib.ToolError("vacuity guard: not all three limit kinds fired in the model")
     if n_unlimited < 50:
         raise vlib.ToolError("vacuity guard: too few scenarios that stay under all limits")
     ck.assumptions += ["exact iteration boundary and recursion boundary are compared as membership in the model's window "
